@@ -113,3 +113,26 @@ pub fn str_find_char<P: core::str::pattern::Pattern>(s: &str, pat: P) -> Option<
     }
     None
 }
+
+// Guards for the write-only assumption of the String sink: if the kernel starts to READ or EDIT its
+// output buffer (which under the sink stubs stays empty), the encoding no longer represents the
+// code. These stubs turn that situation into a loud "(harness bound)" failure (classified
+// inconclusive by the runner) instead of a silent pass. Seed c16b is the case that prompted them.
+pub fn guard_ends_with<P: core::str::pattern::Pattern>(_s: &str, pat: P) -> bool {
+    core::mem::forget(pat);
+    assert!(false, "sink model: the kernel reads its output buffer back with str::ends_with; encoding invalid for this tree (harness bound)");
+    false
+}
+pub fn guard_string_insert(_s: &mut String, _idx: usize, _c: char) {
+    assert!(false, "sink model: the kernel edits its output buffer with String::insert; encoding invalid for this tree (harness bound)");
+}
+pub fn guard_string_insert_str(_s: &mut String, _idx: usize, _t: &str) {
+    assert!(false, "sink model: the kernel edits its output buffer with String::insert_str; encoding invalid for this tree (harness bound)");
+}
+pub fn guard_string_pop(_s: &mut String) -> Option<char> {
+    assert!(false, "sink model: the kernel edits its output buffer with String::pop; encoding invalid for this tree (harness bound)");
+    None
+}
+pub fn guard_string_truncate(_s: &mut String, _n: usize) {
+    assert!(false, "sink model: the kernel edits its output buffer with String::truncate; encoding invalid for this tree (harness bound)");
+}
